@@ -715,6 +715,10 @@ func registerSync() {
 		if v.T == nil {
 			m.goPanic("sync/atomic: store of nil value into Value")
 		}
+		// every Store must use the concrete type of the first one
+		if old, ok := m.load(p.sub(0)).(*IfaceV); ok && old.T != nil && !types.Identical(old.T, v.T) {
+			m.goPanic("sync/atomic: store of inconsistently typed value into Value")
+		}
 		m.store(p.sub(0), v)
 		return nil
 	})
@@ -762,6 +766,23 @@ func registerMisc() {
 		return r
 	}
 	intrinsics["math/rand.Int63n"] = intrinsics["math/rand.Intn"]
+	// rand.Shuffle: an arbitrary permutation (Fisher-Yates with every choice explored); n concrete
+	intrinsics["math/rand.Shuffle"] = func(m *Machine, th *Thread, fn *ssa.Function, a []Value, site ssa.Instruction) Value {
+		n := m.intArg(a[0])
+		if n < 0 {
+			m.goPanic("invalid argument to Shuffle")
+		}
+		for i := n - 1; i > 0; i-- {
+			j := int64(m.chooseEnum(int(i + 1)))
+			m.callFn(th, a[1], []Value{m.tt.Const(64, uint64(i)), m.tt.Const(64, uint64(j))}, site)
+		}
+		return nil
+	}
+	intrinsics["math/rand.Float64"] = func(m *Machine, th *Thread, fn *ssa.Function, a []Value, site ssa.Instruction) Value {
+		// the smallest, a middle and (nearly) the largest value of [0,1); floats are concrete in the engine
+		vals := []float64{0, 0.5, 0.9999999}
+		return m.tt.FConst(mathBits(vals[m.chooseEnum(3)]))
+	}
 	intrinsics["math/rand.Uint32"] = func(m *Machine, th *Thread, fn *ssa.Function, a []Value, site ssa.Instruction) Value {
 		return m.newInput("rand.Uint32", BV(32), "int")
 	}
